@@ -374,6 +374,8 @@ def check_engine_a(prop, tier, seed):
     cfg = PROPS[prop]
     t_start = time.time()
     variants = cfg.get("variants", ["plain", "asan"])
+    if os.environ.get("VERIF_VARIANTS") and "variants" not in cfg:       # measuring tools only (tools/mutation_campaign.py): e.g. plain without asan
+        variants = [v for v in variants if v in os.environ["VERIF_VARIANTS"].split(",")] or variants
     bins = build_all(cfg["engine"], variants)
     known, fixed = load_known()
     batches = []
